@@ -76,6 +76,18 @@ def _fmt(pre):
     return "(" + ",".join("%s=%s" % (k, pre[k]) for k in sorted(pre)) + ")"
 
 
+GC = "gc::Gc"
+GCW = "gc_weak::GcWeak"
+
+
+def gc(i):
+    return adt(GC, 0, (obj(i), UNIT))
+
+
+def gcw(i):
+    return adt(GCW, 0, (gc(i),))
+
+
 class Tables:
     def __init__(self, prog, allow_panic=True):
         self.prog = prog
@@ -113,17 +125,50 @@ class Tables:
             yield self.run(prim, fn, [self.cx(), obj(1)], pre, phase=ph,
                            objs={1: {"colour": c, "live": live, "nt": nt}})
 
+    def _single_v(self, prim, fn, mk, phases=PH + ["Drop"]):
+        for ph, c, live, nt in itertools.product(phases, COL, (0, 1), (0, 1)):
+            pre = {"phase": ph, "colour": c, "live": live, "nt": nt}
+            yield self.run(prim, fn, [self.cx(), mk(1)], pre, phase=ph,
+                           objs={1: {"colour": c, "live": live, "nt": nt}})
+
     def t_trace(self):
-        return self._single("trace", "context::Context::trace")
+        # through `impl Trace for Context` (what user Collect impls call): trace_gc -> strong marking
+        return self._single_v("trace", "<context::Context as collect::Trace>::trace_gc", gc)
 
     def t_trace_weak(self):
-        return self._single("trace_weak", "context::Context::trace_weak")
+        return self._single_v("trace_weak", "<context::Context as collect::Trace>::trace_gc_weak", gcw)
 
     def t_upgrade(self):
         return self._single("upgrade", "context::Context::upgrade")
 
+    def _single_rev(self, prim, fn, mk, phases=PH):
+        # functions taking (value, &context)
+        for ph, c, live, nt in itertools.product(phases, COL, (0, 1), (0, 1)):
+            pre = {"phase": ph, "colour": c, "live": live, "nt": nt}
+            yield self.run(prim, fn, [mk(1), self.cx()], pre, phase=ph,
+                           objs={1: {"colour": c, "live": live, "nt": nt}})
+
+    def t_weak_upgrade(self):
+        return self._single_rev("weak_upgrade", "gc_weak::GcWeak::upgrade", gcw)
+
+    def t_weak_is_dropped(self):
+        for ph, c, live, nt in itertools.product(PH, COL, (0, 1), (0, 1)):
+            pre = {"phase": ph, "colour": c, "live": live, "nt": nt}
+            yield self.run("weak_is_dropped", "gc_weak::GcWeak::is_dropped", [gcw(1)], pre, phase=ph,
+                           objs={1: {"colour": c, "live": live, "nt": nt}})
+
+    def t_weak_is_dead(self):
+        return self._single_rev("weak_is_dead", "gc_weak::GcWeak::is_dead", gcw)
+
+    def t_gc_is_dead(self):
+        return self._single_v("gc_is_dead", "gc::Gc::is_dead", gc, phases=PH)
+
+    def t_weak_resurrect(self):
+        return self._single_rev("weak_resurrect", "gc_weak::GcWeak::resurrect", gcw)
+
     def t_resurrect(self):
-        return self._single("resurrect", "context::Context::resurrect")
+        # through Gc::resurrect(fc, gc)
+        return self._single_v("resurrect", "gc::Gc::resurrect", gc)
 
     def t_make_gray_again(self):
         return self._single("make_gray_again", "context::Context::make_gray_again")
@@ -139,47 +184,48 @@ class Tables:
         for ph, pc, pnt in itertools.product(PH, COL, (0, 1)):
             base = {"phase": ph, "P": pc, "Pnt": pnt}
             pre = dict(base, child="None")
-            yield self.run("backward_barrier", "context::Context::backward_barrier",
-                           [self.cx(), obj(1), none()], pre, phase=ph, objs={1: {"colour": pc, "nt": pnt}})
+            yield self.run("backward_barrier", "context::Mutation::backward_barrier",
+                           [self.cx(), gc(1), none()], pre, phase=ph, objs={1: {"colour": pc, "nt": pnt}})
             pre = dict(base, child="alias")
-            yield self.run("backward_barrier", "context::Context::backward_barrier",
-                           [self.cx(), obj(1), some(obj(1))], pre, phase=ph, objs={1: {"colour": pc, "nt": pnt}})
+            yield self.run("backward_barrier", "context::Mutation::backward_barrier",
+                           [self.cx(), gc(1), some(gc(1))], pre, phase=ph, objs={1: {"colour": pc, "nt": pnt}})
             for lab, spec in self._child_cases():
                 pre = dict(base, child=lab)
-                yield self.run("backward_barrier", "context::Context::backward_barrier",
-                               [self.cx(), obj(1), some(obj(2))], pre, phase=ph,
+                yield self.run("backward_barrier", "context::Mutation::backward_barrier",
+                               [self.cx(), gc(1), some(gc(2))], pre, phase=ph,
                                objs={1: {"colour": pc, "nt": pnt}, 2: spec})
 
     def t_backward_barrier_weak(self):
         for ph, pc, pnt in itertools.product(PH, COL, (0, 1)):
             base = {"phase": ph, "P": pc, "Pnt": pnt}
             pre = dict(base, child="alias")
-            yield self.run("backward_barrier_weak", "context::Context::backward_barrier_weak",
-                           [self.cx(), obj(1), obj(1)], pre, phase=ph, objs={1: {"colour": pc, "nt": pnt}})
+            yield self.run("backward_barrier_weak", "context::Mutation::backward_barrier_weak",
+                           [self.cx(), gc(1), gcw(1)], pre, phase=ph, objs={1: {"colour": pc, "nt": pnt}})
             for lab, spec in self._child_cases():
                 pre = dict(base, child=lab)
-                yield self.run("backward_barrier_weak", "context::Context::backward_barrier_weak",
-                               [self.cx(), obj(1), obj(2)], pre, phase=ph,
+                yield self.run("backward_barrier_weak", "context::Mutation::backward_barrier_weak",
+                               [self.cx(), gc(1), gcw(2)], pre, phase=ph,
                                objs={1: {"colour": pc, "nt": pnt}, 2: spec})
 
-    def _forward(self, prim, fn):
+    def _forward(self, prim, fn, weak=False):
+        mk = gcw if weak else gc
         for ph, cc, cnt, clive in itertools.product(PH, COL, (0, 1), (0, 1)):
             base = {"phase": ph, "C": cc, "Cnt": cnt, "Clive": clive}
             child = {"colour": cc, "nt": cnt, "live": clive}
             pre = dict(base, parent="None")
-            yield self.run(prim, fn, [self.cx(), none(), obj(2)], pre, phase=ph, objs={2: child})
+            yield self.run(prim, fn, [self.cx(), none(), mk(2)], pre, phase=ph, objs={2: child})
             pre = dict(base, parent="alias")
-            yield self.run(prim, fn, [self.cx(), some(obj(2)), obj(2)], pre, phase=ph, objs={2: child})
+            yield self.run(prim, fn, [self.cx(), some(gc(2)), mk(2)], pre, phase=ph, objs={2: child})
             for pc in COL:
                 pre = dict(base, parent=pc)
-                yield self.run(prim, fn, [self.cx(), some(obj(1)), obj(2)], pre, phase=ph,
+                yield self.run(prim, fn, [self.cx(), some(gc(1)), mk(2)], pre, phase=ph,
                                objs={1: {"colour": pc, "nt": 1}, 2: child})
 
     def t_forward_barrier(self):
-        return self._forward("forward_barrier", "context::Context::forward_barrier")
+        return self._forward("forward_barrier", "context::Mutation::forward_barrier")
 
     def t_forward_barrier_weak(self):
-        return self._forward("forward_barrier_weak", "context::Context::forward_barrier_weak")
+        return self._forward("forward_barrier_weak", "context::Mutation::forward_barrier_weak", weak=True)
 
     def t_root_barrier(self):
         for ph in PH:
@@ -260,3 +306,122 @@ class Tables:
                 yield self.run("drop_all", "<context::Context as core::ops::drop::Drop>::drop",
                                [self.cx()], pre, phase=ph, all_=(1 if sh else None),
                                sweep=(2 if len(sh) > 1 else None), objs=objs)
+
+    # ------------------------------------------------------------------ sanctioned adoption paths (C06)
+    def _seed_key(self, norm_name, raw_contains=None):
+        ks = self.prog.seed_n.get(norm_name, [])
+        for k in ks:
+            raw = self.prog.bodies[k]["def"]
+            if raw_contains is None or raw_contains in raw:
+                return k
+        return None
+
+    ADOPT = [
+        # (label, normalised fn, raw-path discriminator, argument builder name, returns-write-access?)
+        ("Gc::write", "gc::Gc::write", None, "mc_gc", True),
+        ("Gc::unlock", "gc::Gc::unlock", None, "gc_mc", True),
+        ("Gc<Lock>::set", "lock::<impl gc::Gc>::set", "lock::Lock<T>", "gc_mc_v", False),
+        ("Gc<RefLock>::borrow_mut", "lock::<impl gc::Gc>::borrow_mut", None, "gc_mc", True),
+        ("Gc<RefLock>::try_borrow_mut", "lock::<impl gc::Gc>::try_borrow_mut", None, "gc_mc", True),
+        ("Gc<OnceLock>::set", "lock::<impl gc::Gc>::set", "lock::OnceLock<T>", "gc_mc_v", False),
+        ("Gc<OnceLock>::get_or_init", "lock::<impl gc::Gc>::get_or_init", None, "gc_mc_clo", False),
+    ]
+
+    def t_adopt(self):
+        self.m.ip.lenient_std = True
+
+        def slot_add(ip, st, args, info):
+            try:
+                oid = gcmodel._obj_of(ip, st, args[1])
+            except interp.InterpError:
+                oid = "?"
+            st.event("cell_store", "Slots::add", oid)
+            return [(st, "ret", TOP)]
+        self.m.ip.prims["dynamic_roots::Slots::add"] = slot_add
+        try:
+            for (label, fn, disc, argk, ret_write) in self.ADOPT:
+                key = self._seed_key(fn, disc)
+                for ph, pc, pnt in itertools.product(PH, COL, (0, 1)):
+                    pre = {"path": label, "phase": ph, "P": pc, "Pnt": pnt}
+                    if key is None:
+                        r = Row("adopt", pre, [], err="anchor %s not found" % fn)
+                        r.init = {}
+                        self.errors.append(r)
+                        yield r
+                        continue
+                    if argk == "mc_gc":
+                        args = [self.cx(), gc(1)]
+                    elif argk == "gc_mc":
+                        args = [gc(1), self.cx()]
+                    elif argk == "gc_mc_v":
+                        args = [gc(1), self.cx(), TOP]
+                    else:
+                        args = [gc(1), self.cx(), adt("closure:<user>", 0, ())]
+                    r = self.run_key("adopt", key, args, pre, phase=ph, objs={1: {"colour": pc, "nt": pnt}})
+                    r.ret_write = ret_write
+                    yield r
+            # DynamicRootSet::stash(&self, mc, root)
+            key = self._seed_key("dynamic_roots::DynamicRootSet::stash")
+            for ph, pc, cc in itertools.product(PH, COL, COL):
+                pre = {"path": "DynamicRootSet::stash", "phase": ph, "P": pc, "Pnt": 1, "C": cc}
+                if key is None:
+                    r = Row("adopt", pre, [], err="anchor stash not found")
+                    r.init = {}
+                    self.errors.append(r)
+                    yield r
+                    continue
+                st_extra = {("set",): adt("dynamic_roots::DynamicRootSet", 0, (gc(1),))}
+                r = self.run_key("adopt", key, [ref(("set",), ()), self.cx(), gc(2)], pre, phase=ph,
+                                 objs={1: {"colour": pc, "nt": 1}, 2: {"colour": cc, "nt": 1}}, mem=st_extra)
+                r.ret_write = False
+                yield r
+        finally:
+            self.m.ip.lenient_std = False
+            del self.m.ip.prims["dynamic_roots::Slots::add"]
+
+    def run_key(self, prim, key, args, pre, mem=None, **state):
+        st = self.m.mk_state(**state)
+        st.mem[("root",)] = ("sym", "rootval")
+        for a, v in (mem or {}).items():
+            st.mem[a] = v
+        init = self.m.snapshot(st)
+        try:
+            outs = [Out(self.m, o) for o in self.m.ip.run(key, args, st)]
+            r = Row(prim, pre, outs)
+        except (interp.Unmodelled, interp.InterpError, KeyError, IndexError, TypeError) as e:
+            r = Row(prim, pre, [], err="%s: %s" % (type(e).__name__, e))
+            self.errors.append(r)
+        r.init = init
+        return r
+
+    ROOT_PATHS = [("Arena::mutate_root", "arena::Arena::mutate_root", "ref"),
+                  ("Arena::map_root", "arena::Arena::map_root", "val"),
+                  ("Arena::try_map_root", "arena::Arena::try_map_root", "val"),
+                  ("Arena::mutate", "arena::Arena::mutate", "ref"),
+                  ("MarkedArena::finalize", "arena::MarkedArena::finalize", "marked")]
+
+    def t_root_paths(self):
+        self.m.ip.lenient_std = True
+        try:
+            for (label, fn, selfk) in self.ROOT_PATHS:
+                key = self._seed_key(fn)
+                for ph, flag in itertools.product(PH, (0, 1)):
+                    pre = {"path": label, "phase": ph, "flag": flag}
+                    if key is None:
+                        r = Row("root_paths", pre, [], err="anchor %s not found" % fn)
+                        r.init = {}
+                        self.errors.append(r)
+                        yield r
+                        continue
+                    arena = adt("arena::Arena", 0, (ref(("ctx",), ()), ("sym", "root")))
+                    mem = {("arena",): arena}
+                    if selfk == "ref":
+                        a0 = ref(("arena",), ())
+                    elif selfk == "val":
+                        a0 = arena
+                    else:
+                        a0 = adt("arena::MarkedArena", 0, (ref(("arena",), ()),))
+                    yield self.run_key("root_paths", key, [a0, adt("closure:<user>", 0, ())], pre, phase=ph,
+                                       root_needs_trace=bool(flag), mem=mem)
+        finally:
+            self.m.ip.lenient_std = False
